@@ -19,3 +19,12 @@ PROPS['C02'] = dict(
     assumptions=[],
     explanation="",
 )
+
+from contracts import select
+PROPS['C07'] = dict(
+    units=list(select.UNITS),
+    level='proof',
+    min_obligations=50,
+    assumptions=[],
+    explanation="",
+)
